@@ -224,7 +224,7 @@ impl WindowSize {
                 }
             }
             (WindowSize::Mod(a), WindowSize::Mod(b)) => {
-                if a == b {
+                if a == b || (*a != 0 && a.checked_rem(*b) == Some(0)) {
                     Some(TcpMatchQuality::High.as_score())
                 } else {
                     Some(TcpMatchQuality::Low.as_score())
